@@ -39,6 +39,15 @@ MODEL_SCOPE = ('modelled: NliSolver.compute_nli (gn_model_analytic branch), _gn_
                'convert_length, apply_attenuation_db, SpectralInformation overlap/baud checks and its sort by frequency (argsort). '
                'Not modelled: GGN methods')
 PARTIAL = []
+MANIFEST = {
+    'text': ('The Lean model Gnpy.Gn.nli IS the published closed form (eq. 120/123 of arXiv:1209.0394 in GNPy\'s non-uniform '
+             'form, transliterated with the code\'s broadcasting: weights 16/27 and 32/27, asinh kernel, effective length); '
+             'theorems over the reals for every fibre and every comb: psi/NLI non-negative, cubic scaling, monotone in every '
+             'power, never lowered by an added channel, independent of the supplied order (sort modelled), SPM closed form, '
+             'index form = frequency form on accepted combs. "code = closed form" is the correspondence check itself '
+             '(NliSolver.compute_nli and Fiber.__call__ on real objects vs the model, rel 1e-9) plus an independent plain-Python '
+             'evaluation of the formula and the four laws checked metamorphically on the implementation.'),
+}
 TRUSTED = ['HasPi Float = 3.141592653589793 (the binary64 value of numpy.pi); theorems use Real.pi']
 
 SIM = {'nli_params': {'method': 'gn_model_analytic'}, 'raman_params': {'flag': False}}
